@@ -1,14 +1,100 @@
 """C09 — input chords (defchords) fire for exactly the pressed set."""
 from checks.common import lsim_cases, trace_has_output
+import itertools
+
+V2KEYS = {'a': 30, 's': 31, 'd': 32, 'f': 33, 'g': 34, 'h': 35}
+ACT = {'1': 2, '2': 3, '3': 4, '4': 5, '5': 6, '6': 7}      # chord actions: digits, output by nothing else
+BASEOUT = {30: 30, 31: 31, 32: 32, 33: 33, 34: 34, 35: 35}
+
+
+def v2_case(rng, i):
+    """defchordsv2 (not modelled): scenarios whose outcome the property text fixes, checked on the real output"""
+    keys = list(V2KEYS)
+    nch = rng.randint(1, 4)
+    chords = []
+    for _ in range(20):
+        if len(chords) >= nch:
+            break
+        if chords and rng.random() < 0.5:
+            base = rng.choice(chords)[0]
+            extra = [k for k in keys if k not in base]
+            ks = tuple(sorted(base + (rng.choice(extra),))) if extra else None
+        else:
+            ks = tuple(sorted(rng.sample(keys, rng.randint(2, 3))))
+        if ks and ks not in [c[0] for c in chords]:
+            chords.append((ks, str(len(chords) + 1), rng.choice([40, 100]), rng.choice(['first-release', 'all-released']),
+                           rng.choice([(), (), ('base',), ('other',)])))
+    cfg = '(defcfg concurrent-tap-hold yes)\n(defsrc a s d f g h j)\n(deflayer base a s d f g h (layer-while-held other))\n(deflayer other a s d f g h _)\n' \
+          '(defchordsv2 %s)' % ' '.join('(%s) %s %d %s (%s)' % (' '.join(c[0]), c[1], c[2], c[3], ' '.join(c[4])) for c in chords)
+    target = rng.choice(chords)
+    layer = rng.choice(['base', 'base', 'other'])
+    h = ['t5']
+    if layer == 'other':
+        h += ['d36', 't300']          # hold the layer key long enough to be past any chord timeout
+    order = list(target[0]); rng.shuffle(order)
+    kind = rng.choice(['exact', 'exact', 'abort'])
+    for k in order:
+        h += ['d%d' % V2KEYS[k], 't%d' % rng.randint(1, 8)]
+    extra = None
+    if kind == 'abort':
+        cand = [k for k in keys if k not in target[0] and not any(set(target[0]) | {k} <= set(c[0]) for c in chords)]
+        if cand:
+            extra = rng.choice(cand)
+            h += ['d%d' % V2KEYS[extra], 't%d' % rng.randint(1, 5)]
+        else:
+            kind = 'exact'
+    h += ['t%d' % 150]
+    rel = list(order) + ([extra] if extra else [])
+    rng.shuffle(rel)
+    for k in rel:
+        h += ['u%d' % V2KEYS[k], 't3']
+    if layer == 'other':
+        h += ['u36']
+    h += ['t300', 'q']
+    return {'id': 'c09-v2-%d' % i, 'cfg': cfg, 'hist': h, 'sub': 'ksim', 'no_compare': True,
+            'v2': {'chords': chords, 'target': target, 'layer': layer, 'kind': kind, 'extra': extra},
+            'tags': {'mode': 'chords-v2', 'scenario': kind, 'layer': layer}}
+
+
+def oracle(c, it):
+    if 'v2' not in c or not it or it[0].startswith('PARSE-'):
+        return None
+    v = c['v2']
+    presses = [int(e[1:]) for l in it if l.startswith('@') for e in l.split(' ')[1:] if e[0] == 'd' and e[1:].isdigit()]
+    disabled_here = [ch for ch in v['chords'] if v['layer'] in ch[4]]
+    for ch in disabled_here:
+        if ACT[ch[1]] in presses:
+            return 'chord (%s) is disabled on layer %s but its action fired' % (' '.join(ch[0]), v['layer'])
+    tgt = v['target']
+    enabled = v['layer'] not in tgt[4]
+    # is the target a strict sub-chord of another enabled chord? then the extra key / timeout decide; only the clear cases are judged
+    supers = [ch for ch in v['chords'] if set(tgt[0]) < set(ch[0]) and v['layer'] not in ch[4]]
+    if v['kind'] == 'exact':
+        if enabled:
+            if presses.count(ACT[tgt[1]]) != 1:
+                return 'exactly the keys of chord (%s) were pressed together but its action fired %d times' % (' '.join(tgt[0]), presses.count(ACT[tgt[1]]))
+            own = [p for p in presses if p in [V2KEYS[k] for k in tgt[0]]]
+            if own:
+                return 'participants of the fired chord were also delivered: %s' % own
+        elif not any(v['layer'] not in ch[4] and set(ch[0]) <= set(tgt[0]) for ch in v['chords']):
+            want = sorted(V2KEYS[k] for k in tgt[0])
+            if sorted(p for p in presses if p in BASEOUT) != want:
+                return 'chord disabled here: its keys should be delivered individually, saw presses %s' % presses
+    return None
 
 
 def gen_cases(rng, tier):
     cases = lsim_cases(rng, 'c09', 150 if tier == 'quick' else 4000, 3, nev=(2, 16), tag='c09')
+    for i in range(200 if tier == 'quick' else 6000):
+        cases.append(v2_case(rng, i))
     return cases
 
 
 SPEC = {
-    'id': 'C09', 'sub': 'lsim', 'gen_cases': gen_cases, 'nontrivial': trace_has_output,
-    'rule': 'random chord groups over 2-4 keys (overlapping, sub-chords, undefined supersets) x consistent histories with gaps around the chord timeout' + '; non-trivial = distinct (config, trace) with output',
-    'explanation': 'theorems: pressed set independent of press order (permutation), exact set fires iff no defined strict superset, participants consumed; defchordsv2 not modelled yet (cases with chords v2 are reported unsupported)',
+    'id': 'C09', 'sub': 'lsim', 'gen_cases': gen_cases, 'nontrivial': trace_has_output, 'oracle': oracle,
+    'rule': 'random chord groups over 2-4 keys (overlapping, sub-chords, undefined supersets) x consistent histories with gaps around the chord timeout; '
+            'defchordsv2 (not modelled): exact-set and abort scenarios on either layer judged on the real output (fires once and consumes its keys when enabled, '
+            'never fires where disabled, keys delivered individually then); non-trivial = distinct (config, trace) with output',
+    'explanation': 'theorems: pressed set independent of press order (permutation), exact set fires iff no defined strict superset, participants consumed; '
+                   'defchordsv2 is outside the model: its scenarios are run on the implementation only and judged by the oracle',
 }
